@@ -248,6 +248,16 @@ pub fn dump_crate<'tcx>(tcx: TyCtxt<'tcx>, krate: &str) -> J {
             b.set("exported", J::Bool(ev.is_reachable(ldid)));
         }
         bodies.push(b);
+        if matches!(kind, DefKind::Fn | DefKind::AssocFn | DefKind::Closure) {
+            for (pi, pb) in tcx.promoted_mir(did).iter_enumerated() {
+                let pcx = Cx { tcx, env, body: pb };
+                let mut pj = pcx.dump();
+                pj.set("path", J::s(format!("{}::promoted[{}]", path_of(tcx, did), pi.as_usize())));
+                pj.set("kind", J::s("promoted"));
+                pj.set("def_kind", J::s("Promoted"));
+                bodies.push(pj);
+            }
+        }
     }
 
     // ADTs, statics, impls, unsafe from HIR items
